@@ -132,6 +132,10 @@ results = run_children(histories)
 cases, meta, fails = [], [], []
 
 
+def modname(key):
+    return key[:-5] if key.endswith(".init") else key.split(".", 1)[1]
+
+
 def pub_observation_ok(ev, oc):
     """the property, on one public observation"""
     k = ev[0]
@@ -169,9 +173,12 @@ seen_sig = set()
 for key, (prefix, oc) in sorted(buckets.items(), key=lambda kv: len(kv[1][0])):
     last = prefix[-1]
 
-    def still_fails(cand):
-        o = observe(cand)
-        return not pub_observation_ok(cand[-1], o[-1])
+    def still_fails(cands, oc=oc):
+        out = []
+        for cand, res in zip(cands, run_children(cands)):
+            o = [classify(e, r, can) for e, r in zip(cand, res["out"])]
+            out.append(not pub_observation_ok(cand[-1], o[-1]) and o[-1] == oc)
+        return out
     m = minimise(prefix, still_fails)
     o = observe(m)
     before = m[:-1]
@@ -179,7 +186,7 @@ for key, (prefix, oc) in sorted(buckets.items(), key=lambda kv: len(kv[1][0])):
     priv = [x for x in before if x[0] == "init" and x[2] != "pub" and set(event_groups(x)) & grp]
     direct = [x for x in before if x[0] == "init" and x[2] == "pub" and set(event_groups(x)) & grp]
     if priv:
-        sig = "C09:private-init-before-public-touch:%s" % priv[0][1].replace(".init", "").replace("xsf.", "")
+        sig = "C09:private-init-before-public-touch:%s" % modname(priv[0][1])
     elif direct and direct[0][1] == "xsf.init_spectral_lines":
         sig = "C09:direct-init_spectral_lines-first"
     elif direct:
